@@ -442,6 +442,12 @@ func c17aBootSteps(now time.Time) []c17aBootStep {
 				arr = append(arr, map[string]interface{}{"metric": m, "tags": map[string]string{"host": []string{"h1", "h2"}[i%2], "job": "c17"}, "timestamp": ts + int64(i)*15, "value": i + 1})
 			}
 		}
+		for i := 0; i < 18; i++ { // a dense series: every window of a range function holds several samples, from the first sample on
+			arr = append(arr, map[string]interface{}{"metric": "c17d", "tags": map[string]string{"host": "h1", "job": "c17"}, "timestamp": ts + int64(i)*10, "value": []float64{3, 1, 4, 1, 5, 9, 2, 6}[i%8]})
+			// … and two more samples inside the same second (millisecond timestamps): several entries in one downsampling bucket
+			arr = append(arr, map[string]interface{}{"metric": "c17d", "tags": map[string]string{"host": "h1", "job": "c17"}, "timestamp": (ts+int64(i)*10)*1000 + 250, "value": float64(i%5) + 0.5})
+			arr = append(arr, map[string]interface{}{"metric": "c17d", "tags": map[string]string{"host": "h1", "job": "c17"}, "timestamp": (ts+int64(i)*10)*1000 + 750, "value": float64(i%3) - 1})
+		}
 		add("i", "POST", "/otsdb/api/put", c17aJ, c17aJSON(arr), "")
 		add("i", "POST", "/otlp/v1/traces", c17aPB, c17aOtlpTraceBody(ts), "")
 		add("i", "POST", "/otlp/v1/logs", c17aPB, c17aOtlpLogBody(ts), "")
